@@ -250,8 +250,8 @@ def r15_5(facts, res, rule="R15-5"):
         if not ok:
             res.add(Finding(rule, f["path"].split("::")[-1], "%s %s: data supplied through the factory is stored without the validity check"
                             % (f["path"], ("calls the unchecked constructor %s" % raw) if raw else "does not go through the checked insert"), f["file"], f["line"], {}))
-    if st["instances"] < 3:
-        raise BrokenCheck("%s: %d character-data factories (floor 3)" % (rule, st["instances"]))
+    if st["instances"] < 2:
+        raise BrokenCheck("%s: %d character-data factories (floor 2)" % (rule, st["instances"]))
 
 
 def r15_6(facts, res, rule="R15-6"):
@@ -355,8 +355,8 @@ def run(facts, tier):
             if cls is None:
                 res.add(Finding("R15-1", key, "%s stores into %s.%s a value that is not validated as stored (%s)" % (f["path"], ty, field, why),
                                 f["file"], n.get("ln"), {}))
-    if st["instances"] < 9:
-        raise BrokenCheck("R15-1: %d store sites (floor 9)" % st["instances"])
+    if st["instances"] < 5:
+        raise BrokenCheck("R15-1: %d store sites (floor 5)" % st["instances"])
     # set_values / empty(): constructor paths fed by API strings go through the parser with the rest tested
     for path in ("xml_info::XmlAttribute::set_values", "xml_info::XmlAttribute::empty", "xml_info::XmlElement::empty",
                  "xml_info::XmlProcessingInstruction::empty", "xml_info::XmlProcessingInstruction::set_content"):
@@ -381,8 +381,8 @@ def run(facts, tier):
             if not ok2:
                 res.add(Finding("R15-2", path.split("::", 1)[1], "%s validates inside %r but the printer writes %r" % (path, tmpl[0][0], parts),
                                 f["file"], tmpl[0][2], {}))
-    if st2["instances"] < 5:
-        raise BrokenCheck("R15-2: %d template pairs (floor 5)" % st2["instances"])
+    if st2["instances"] < 3:
+        raise BrokenCheck("R15-2: %d template pairs (floor 3)" % st2["instances"])
     res.functions_analysed = st["instances"]
     r15_3(facts, res)
     r15_4(facts, res)
